@@ -2,11 +2,12 @@
 EXTENDS OdmlIdsOps, IOUtils
 Obs == ndJsonDeserialize(IOEnv.OBS_FILE)
 VARIABLE l
-Say(tag, prop, clause, o) == PrintT(ToJson(<<tag, prop, clause, o.k, <<o.op, o.kind, o.in>> >>))
+Say(tag, prop, clause, o) == PrintT(ToJson(<<tag, prop, clause, o.k, <<o.op, o.kind, o.in, IF o.named THEN "named" ELSE "unnamed">> >>))
 Chk(P, prop, clause, o) == IF P THEN TRUE ELSE Say("VIOL", prop, clause, o)
 Check(i) == LET o == Obs[i] IN
    /\ Chk(IdCanonical(o), "C04", "IdCanonical", o)
    /\ Chk(IdStepOK(o), "C04", "IdStep", o)
+   /\ Chk(NameStepOK(o), "C04", "NamesOK", o)
    /\ Chk(o.out = "raised" => o.post = o.pre /\ o.postname = o.prename, "C06", "Atomic", o)
 JInit == l = 1
 JNext == l <= Len(Obs) /\ Check(l) /\ l' = l + 1
